@@ -365,12 +365,12 @@ Section SnapProofs.
 
   Lemma import_export_l s :
     carried (snapshot_of s) ->
-    store_wf s -> epoch_clean s = true -> names_max_id (snapshot_of s) = false ->
+    store_wf s -> epoch_clean s = true ->
     exists c, import dec_snap (export enc_snap s) = IOk c /\ dump c latest = dump s latest
               /\ dump c (s_epoch c) = dump s latest.
   Proof.
-    intros dec_enc_snap W C M. unfold import, export. rewrite <- (app_nil_r (enc_snap _)), dec_enc_snap.
-    cbn [sn_version snapshot_of]. rewrite Z.eqb_refl, M. eexists. split; [reflexivity|].
+    intros dec_enc_snap W C. unfold import, export. pose proof (dec_enc_snap []) as HD. rewrite app_nil_r in HD. rewrite HD.
+    rewrite Nat.ltb_irrefl. cbn [sn_version snapshot_of]. rewrite Z.eqb_refl. eexists. split; [reflexivity|].
     apply copy_dump_l; assumption.
   Qed.
 
@@ -385,42 +385,56 @@ Section SnapProofs.
     carried (snapshot_of s) ->
     store_wf s -> import dec_snap (export enc_snap s) = IOk c -> export enc_snap c = export enc_snap s.
   Proof.
-    intros dec_enc_snap W. unfold import, export at 1. rewrite <- (app_nil_r (enc_snap _)), dec_enc_snap.
-    cbn [sn_version snapshot_of]. rewrite Z.eqb_refl. destruct (names_max_id _); [discriminate|].
+    intros dec_enc_snap W. unfold import, export at 1. pose proof (dec_enc_snap []) as HD. rewrite app_nil_r in HD. rewrite HD.
+    rewrite Nat.ltb_irrefl. cbn [sn_version snapshot_of]. rewrite Z.eqb_refl.
     intros H. injection H as <-. pose proof (snapshot_ok s W) as OK.
     unfold export. f_equal. unfold snapshot_of at 1. rewrite (build_epoch _ OK).
     pose proof (build_dump _ 0 OK (Z.le_refl 0)) as D. unfold dump in D. injection D as D1 D2.
     rewrite D1, D2. reflexivity.
   Qed.
 
-  (** T import_total: for every byte string the result is an error, the panic of class K3,
-      or the complete store of the decoded snapshot — never a partial one *)
+  (** T import_total: for every byte string the result is an error or the complete store of a
+      snapshot that the bytes are exactly the encoding of — never a panic, never a partial store,
+      never with bytes left over *)
   Lemma import_total_l bs :
     match import dec_snap bs with
-    | IErr => dec_snap bs = None \/ exists sn n, dec_snap bs = Some (sn, n) /\ sn_version sn <> 1
-    | IPanic => exists sn n, dec_snap bs = Some (sn, n) /\ k07_3 sn = true
-    | IOk c => exists sn n, dec_snap bs = Some (sn, n) /\ sn_version sn = 1 /\ k07_3 sn = false /\ c = build sn
+    | IErr => dec_snap bs = None
+              \/ exists sn n, dec_snap bs = Some (sn, n) /\ ((n < length bs)%nat \/ sn_version sn <> 1)
+    | IPanic => False
+    | IOk c => exists sn n, dec_snap bs = Some (sn, n) /\ (length bs <= n)%nat /\ sn_version sn = 1 /\ c = build sn
     end.
   Proof.
-    unfold import, k07_3. destruct (dec_snap bs) as [[sn n]|]; [|left; reflexivity].
-    destruct (sn_version sn =? 1) eqn:V.
-    - apply Z.eqb_eq in V. destruct (names_max_id sn) eqn:M; exists sn, n; auto.
-    - apply Z.eqb_neq in V. right. exists sn, n. auto.
+    unfold import. destruct (dec_snap bs) as [[sn n]|]; [|left; reflexivity].
+    destruct (n <? length bs)%nat eqn:T.
+    - apply Nat.ltb_lt in T. right. exists sn, n. auto.
+    - apply Nat.ltb_ge in T. destruct (sn_version sn =? 1) eqn:V.
+      + apply Z.eqb_eq in V. exists sn, n. auto.
+      + apply Z.eqb_neq in V. right. exists sn, n. auto.
   Qed.
 
-  (** C07-K2: whatever follows a valid snapshot is ignored *)
-  Lemma trailing_accepted_l sn junk :
-    carried sn -> import dec_snap (enc_snap sn ++ junk) = import dec_snap (enc_snap sn).
+  (** bytes behind a valid snapshot are an error (C07-K2 repaired) *)
+  Lemma trailing_rejected_l sn junk :
+    carried sn -> junk <> [] -> import dec_snap (enc_snap sn ++ junk) = IErr.
   Proof.
-    intros dec_enc_snap. unfold import. rewrite dec_enc_snap. pose proof (dec_enc_snap []) as H. rewrite app_nil_r in H. rewrite H. reflexivity.
+    intros dec_enc_snap Hj. unfold import. rewrite dec_enc_snap.
+    replace (length (enc_snap sn) <? length (enc_snap sn ++ junk))%nat with true; [reflexivity|].
+    symmetry. apply Nat.ltb_lt. rewrite app_length. destruct junk; [congruence|cbn; lia].
+  Qed.
+
+  (** * the code before the repairs *)
+  (** C07-K2 (pre): whatever followed a valid snapshot was ignored *)
+  Lemma trailing_accepted_pre_l sn junk :
+    carried sn -> import_pre dec_snap (enc_snap sn ++ junk) = import_pre dec_snap (enc_snap sn).
+  Proof.
+    intros dec_enc_snap. unfold import_pre. rewrite dec_enc_snap. pose proof (dec_enc_snap []) as H. rewrite app_nil_r in H. rewrite H. reflexivity.
   Qed.
   Lemma trailing_class_l sn junk : junk <> [] -> k07_2 (enc_snap sn ++ junk) (length (enc_snap sn)) = true.
   Proof. intros H. unfold k07_2. apply Nat.ltb_lt. rewrite app_length. destruct junk; [congruence|cbn; lia]. Qed.
 
-  (** C07-K3: a snapshot that names the largest id makes import panic *)
-  Lemma import_max_id_l sn : carried sn -> sn_version sn = 1 -> k07_3 sn = true -> import dec_snap (enc_snap sn) = IPanic.
+  (** C07-K3 (pre): a snapshot that names the largest id made import panic *)
+  Lemma import_max_id_pre_l sn : carried sn -> sn_version sn = 1 -> k07_3 sn = true -> import_pre dec_snap (enc_snap sn) = IPanic.
   Proof.
-    intros dec_enc_snap V K. unfold import. rewrite <- (app_nil_r (enc_snap sn)), dec_enc_snap, V. cbn. unfold k07_3 in K. rewrite K. reflexivity.
+    intros dec_enc_snap V K. unfold import_pre. rewrite <- (app_nil_r (enc_snap sn)), dec_enc_snap, V. cbn. unfold k07_3 in K. rewrite K. reflexivity.
   Qed.
 End SnapProofs.
 
